@@ -803,7 +803,7 @@ def fam_wincmd(tier, outdir):
 
 def fam_conc(tier, outdir):
     """C20: interleavings of two threads' starts at system-call granularity (ConcStart.tla), replayed with coroutines."""
-    scens = [1, 2] if tier == "quick" else [1, 2, 3]
+    scens = [1, 2, 4] if tier == "quick" else [1, 2, 3, 4]
     agg = None
     for sc in scens:
         sdir = os.path.join(outdir, "s%d" % sc)
